@@ -25,6 +25,24 @@ Theorem C09_reported_range : forall c p t, rep_ok (current_position p) /\ rep_ok
 Proof. intros; split; [apply current_position_range|apply current_tilt_range]. Qed.
 Print Assumptions C09_reported_range.
 
+(* the same from ANY stored state (e.g. a state sector loaded without validation: arbitrary 32-bit words as position and tilt): whatever
+   the events, the values put on the wire are -1 or 0..100 *)
+Theorem C09_reported_range_any_state : forall o c boot s evs,
+  rep_ok (current_position (pos (run o c boot s evs))) /\ rep_ok (current_tilt c (tilt (run o c boot s evs))).
+Proof. intros. exact (C09_reported_range c _ _). Qed.
+Print Assumptions C09_reported_range_any_state.
+
+(* the range tests of the model's getters are the ones of the compiled source: the translator probes supla_esp_gpio_rs_get_current_position /
+   _tilt on every word -300..30300 and on large / negative words and emits the bounds it observes (Gen/RsConsts.v); a dropped or moved
+   comparison in the source changes these constants and this theorem no longer checks *)
+Theorem C09_getters_as_generated :
+  (forall p, known p = andb (GETTER_POS_LO <=? p) (p <=? GETTER_POS_HI)) /\
+  GETTER_TILT_HI = GETTER_POS_HI /\ GETTER_TILT_FIRST_NONZERO = GETTER_POS_LO + 50 /\ GETTER_TILT_BELOW_NONZERO = 0 /\
+  GETTER_POS_OUTSIDE_KNOWN = 0 /\ GETTER_TILT_OUTSIDE_KNOWN = 0 /\ GETTER_POS_ROUNDING_DIFFERS = 0 /\ GETTER_TILT_ROUNDING_DIFFERS = 0 /\
+  GETTER_TILT_UNSUPPORTED = -1.
+Proof. repeat split; reflexivity. Qed.
+Print Assumptions C09_getters_as_generated.
+
 (* Direction.  A callback with the up (down) output energised and a known position never moves position or tilt away
    from the end stop of that direction (remaining distance never grows, never becomes negative). *)
 Theorem C09_direction : forall o, fp_ok o -> forall c boot s dt up,
